@@ -36,6 +36,7 @@ type EpochPlan struct {
 	SealFrame idx.Frame
 	Sealed    bool
 	Byz       bool // forkers hold >= 1/3 of the weight
+	Crit      bool // the generator instance stopped on a critical error
 	Cheaters  map[idx.ValidatorID]bool
 	seal      *sealInfo
 }
@@ -387,7 +388,10 @@ func Generate(r *rand.Rand, cfg GenCfg, rec *Recorder) *Scenario {
 			// frame from Build on the generator instance
 			err, critical := guarded(func() error { return gen.L.Build(te) })
 			if critical || err != nil {
-				ep.Byz = true
+				if rec != nil && err != nil {
+					rec.Crit(err.Error())
+				}
+				ep.Crit = true
 				break
 			}
 			ev.Frame = te.Frame()
@@ -404,8 +408,11 @@ func Generate(r *rand.Rand, cfg GenCfg, rec *Recorder) *Scenario {
 			nb := len(gen.Blocks)
 			err, critical = guarded(func() error { return gen.L.Process(te) })
 			if critical {
-				// more than 1/3 Byzantine detected by the code: end of this run
-				ep.Byz = true
+				// a critical error (legitimate only when more than 1/3 are Byzantine): end of this run
+				if rec != nil {
+					rec.Crit(err.Error())
+				}
+				ep.Crit = true
 				delete(s.Input, te.ID())
 				delete(s.ByID, ev.ID)
 				break
